@@ -223,12 +223,32 @@ func (x *Engine) intrinsic(fr *Frame, st *State, name string, callee *ssa.Functi
 func (x *Engine) poolGet(fr *Frame, st *State, pool Val, sig *types.Signature, pos string) Val {
 	x.abstracted("sync.Pool.Get: some allocated or new object with arbitrary content")
 	v := x.freshVal("pooled", sig.Results().At(0).Type(), st)
-	x.assume(st, fmt.Sprintf("(not (= (i_tag %s) 0))", v.T))
+	x.declRaw("fun:pool_tag", "(declare-fun pool_tag (Int) Int)")
+	// the dynamic type of pooled objects is a property of the pool (what its New function produces)
+	x.assume(st, fmt.Sprintf("(and (not (= (i_tag %s) 0)) (= (i_tag %s) (pool_tag %s)) (not (= (i_val %s) 0)))", v.T, v.T, pool.T, v.T))
 	x.poolEvents = append(x.poolEvents, poolEvent{kind: "get", pool: pool.T, val: v.T, pos: pos})
+	v.Pooled = true
 	return v
 }
 
+// poolInv evaluates the pool invariant registered for the dynamic type t on object ref.
+func (x *Engine) poolInv(st *State, t types.Type, ref string) (string, *Clause) {
+	c := x.db.PoolInvs[typeName(t)]
+	if c == nil {
+		return "", nil
+	}
+	ev := &Eval{x: x, st: st, old: st, env: map[string]Val{"it": {T: ref, Typ: t}}, pkg: x.pkgByPath(c.Props[0])}
+	return x.safeEvalBool(ev, c), c
+}
+
 func (x *Engine) poolPut(fr *Frame, st *State, pool Val, v Val, pos string) {
+	// whoever returns an object to the pool must have re-established the pool invariant
+	if mi := x.putType[v.T]; mi != nil {
+		if g, c := x.poolInv(st, mi.typ, mi.ref); c != nil {
+			x.ordinals["poolput"]++
+			x.oblige(st, "poolput", fmt.Sprintf("%s#%d", typeName(mi.typ), x.ordinals["poolput"]), g, "object returned to the pool satisfies the pool invariant: "+c.Text, pos)
+		}
+	}
 	x.abstracted("sync.Pool.Put: no effect on the heap")
 	x.poolEvents = append(x.poolEvents, poolEvent{kind: "put", pool: pool.T, val: v.T, pos: pos, live: st.live})
 }
